@@ -171,7 +171,17 @@ func bsList(bs [][]byte) string {
 	return lib.L(items...)
 }
 
-var discardLog = slog.New(slog.DiscardHandler)
+// discardLog formats every record at debug level and throws the text away: the log valuers of the
+// project (ntp.PacketLogValuer and friends) and the formatting of decoded values run on whatever
+// the network delivered, as they do in a service started with verbose logging
+var discardLog = slog.New(slog.NewTextHandler(logSink(), &slog.HandlerOptions{Level: slog.LevelDebug}))
+
+func logSink() io.Writer {
+	if os.Getenv("C08_LOG") != "" {
+		return os.Stderr
+	}
+	return io.Discard
+}
 
 func cookieBytes(cs []nts.Cookie) [][]byte {
 	var r [][]byte
@@ -995,6 +1005,7 @@ func generate(tier string, seed uint64) []job {
 	g.genNTSKE()
 	g.genCmsg()
 	g.genListeners()
+	g.genMore()
 	return g.jobs
 }
 
